@@ -53,3 +53,4 @@ CFG = {'level': 'fault_enumeration',
 CFG['level_text'] += ' Targets include directories holding only leftovers below subdirectories (a stale file, or empty directories): should extraction into one succeed, the tree must still equal the entries.'
 CFG['level_text'] += ' 320 (thorough 6400) honest archives are extracted while RLIMIT_FSIZE is lowered to 1..70000 bytes around the call (SIGXFSZ ignored, write(2) fails with EFBIG): with an entry over the limit extraction must not report success, with all entries fitting it must succeed.'
 CFG['level_text'] += ' Entry names include reserved stems that first occur inside a longer word of the same path (icons/con.png, null/nul.txt).'
+CFG['level_text'] += ' Entry names include white space other than U+0020 at either end and directories named with letters whose case-folded form is shorter in UTF-8.'
